@@ -17,7 +17,7 @@ with the real `ExactRiemannSolver`):
 open CMacVerif CMacVerif.Util CMacVerif.ExactRiemann
 
 /-- 2^-1024: largest double whose reciprocal is `inf` (see `Model/RiemannVacuum.lean`) -/
-def ovfThr : Float := Float.ofBits 0x0000400000000000
+def ovfThr : Float := Float.ofBits 0x0004000000000000
 
 def newtonFuel : Nat := 100000
 def brentFuel : Nat := 10000
